@@ -2673,6 +2673,9 @@ func (s *Server) serveConnCounted(c net.Conn, countConcurrency bool) error {
 		if rs, ok := ctx.Request.bodyStream.(*requestStream); ok && !rs.drained() {
 			bodyStreamUnreadAtStart = true
 		}
+		// The flag only reports what the handler below does: resetting the ctx
+		// of an earlier connection with an unread stream leaves it set.
+		ctx.Request.bodyStreamUnread = false
 
 		// If a client denies a request the handler should not be called
 		if continueReadingRequest {
